@@ -228,12 +228,22 @@ func runC14(c *Ctx) {
 				}
 			}
 		}
+		// a mutex that is a local variable of function F exists once per invocation of F: it can only
+		// protect a queue that is local to the same invocation
+		for k := range common {
+			if strings.HasPrefix(k, "local ") {
+				owner := strings.SplitN(strings.TrimPrefix(k, "local "), ".", 2)[0]
+				if !strings.HasPrefix(q, "local ") || queueOwner(ops[0].fn) != owner {
+					delete(common, k)
+				}
+			}
+		}
 		for _, o := range ops {
 			key := core.ShortFn(o.fn) + ": " + strings.TrimPrefix(core.StaticCalleeName(o.in.(ssa.CallInstruction).Common()), "(*"+scPkg+"/internal/pq.Queue).") + " on " + q + " in a goroutine"
 			if len(common) > 0 {
 				c.R.OK("R14.4", key+" holds the queue's mutex", p.Pos(o.in.Pos()), "held: "+o.held.String())
 			} else {
-				c.R.Fail("R14.4", key+" without a common mutex", p.Pos(o.in.Pos()), "queue operations that can run concurrently must all hold the same mutex; held here: "+o.held.String())
+				c.R.Fail("R14.4", key+" without a common mutex", p.Pos(o.in.Pos()), "queue operations that can run concurrently must all hold one mutex that lives at least as long as the queue (a mutex local to one call cannot protect a queue shared between calls); held here: "+o.held.String())
 			}
 		}
 	}
@@ -241,6 +251,14 @@ func runC14(c *Ctx) {
 
 	// ---- R14.5: every other shared write reachable from the v1 entry points -----------
 	checkV1SharedWrites(c, p)
+}
+
+// queueOwner: the outermost function in which a local queue variable lives.
+func queueOwner(f *ssa.Function) string {
+	for f.Parent() != nil {
+		f = f.Parent()
+	}
+	return f.Name()
 }
 
 func queueKey(f *ssa.Function, v ssa.Value) string {
